@@ -127,18 +127,35 @@ def run_solve(kv):
             events = events[0]
     jac = None
     js = kv.get("jac", "none")
+    lay = kv.get("pyjaclayout", "c")
+
+    def layout(rows):
+        """the same matrix in different memory layouts / container types (seeded change C20-c read a Fortran-ordered
+        buffer as if it were C-ordered)"""
+        J = np.array(rows, dtype=float)
+        if lay == "f":
+            return np.asfortranarray(J)
+        if lay == "t":
+            return np.ascontiguousarray(J.T).T          # an F-contiguous view
+        if lay == "s":
+            big = np.zeros((2 * J.shape[0], 2 * J.shape[1]))
+            big[::2, ::2] = J
+            return big[::2, ::2]                         # a strided, non-contiguous view
+        if lay == "l":
+            return [list(map(float, r)) for r in rows]   # nested lists (array_like)
+        return J
     if js != "none":
         n = int(js.split(":", 1)[0])
         es = [parse_expr(x) for x in js.split(":", 1)[1].split(";")]
         if kv.get("constjac", "0") == "1":
-            jac = np.array([[ev(es[r * n + c], 0.0, [0.0] * n) for c in range(n)] for r in range(n)])
+            jac = layout([[ev(es[r * n + c], 0.0, [0.0] * n) for c in range(n)] for r in range(n)])
         elif use_args:
             def jac(t, y, a, b):
                 assert (a, b) == (1.0, "tag"), "extra args did not reach jac"
-                return np.array([[ev(es[r * n + c], t, y) for c in range(n)] for r in range(n)])
+                return layout([[ev(es[r * n + c], t, y) for c in range(n)] for r in range(n)])
         else:
             def jac(t, y):
-                return np.array([[ev(es[r * n + c], t, y) for c in range(n)] for r in range(n)])
+                return layout([[ev(es[r * n + c], t, y) for c in range(n)] for r in range(n)])
     sparsity = None
     if kv.get("sparsity", "none") != "none":
         n, body = kv["sparsity"].split(":", 1)
